@@ -23,9 +23,9 @@ const (
 )
 
 var (
-	PackagePrefix = []byte{0x5a, 0x48}     // package flag
-	PackageLength = 4                      // package length bytes
-	PackageMaxLen = 1 * 1024 * 1024 * 1024 // 1 Gb
+	PackagePrefix = []byte{0x5a, 0x48} // package flag
+	PackageLength = 4                  // package length bytes
+	PackageMaxLen = 64 * 1024          // handshake packets are a few hundred bytes; the length is read from an unauthenticated connection and allocated before any content arrives
 )
 
 // encHandshake object for handshake
